@@ -49,7 +49,7 @@ REGISTRY = {
     'C04': dict(mods=['C04', 'C04Frame'], thms=['C04_method_frame', 'C04_header_frame', 'C04_body_frame', 'C04_value_refines_spec', 'C04_value_sorted', 'C04_args_refine_spec', 'C04_envelope_layout', 'C04_header_payload_layout', 'C04_fixed_frames'],
                 tie=['tieA_methods', 'tieA_struct_formats', 'tieA_struct_uses', 'tieA_envelope_struct_uses', 'tieA_protocol_header_struct_uses', 'tieA_content_header_struct_uses', 'tieA_frame_constants', 'tieA_constant_values', 'tieA_ladder', 'tieA_codec_calls'],
                 lanes=['enc_prim', 'enc_tint', 'enc_value:ok', 'enc_value:any', 'args/args.marshal', 'props/props.marshal', 'frame/frame.marshal', 'cpython_sort', 'spec/spec.enc,spec.args'], oracles=['c04']),
-    'C05': dict(mods=['C05', 'C05Frame'], thms=['C05_decode_agrees_value', 'C05_decode_agrees_table', 'C05_parse_wire', 'C05_no_validation', 'C05_timestamp_refused', 'C05_timestamp_ms', 'C05_method_args', 'C05_method_frame', 'C05_header_frame'],
+    'C05': dict(mods=['C05', 'C05Frame', 'C05Refuse'], thms=['C05_header_timestamp_refused', 'C05_header_timestamp_seconds', 'C05_decode_agrees_value', 'C05_decode_agrees_table', 'C05_parse_wire', 'C05_no_validation', 'C05_timestamp_refused', 'C05_timestamp_ms', 'C05_method_args', 'C05_method_frame', 'C05_header_frame'],
                 tie=['tieA_table_mapping', 'tieA_methods', 'tieA_struct_formats', 'tieA_struct_uses', 'tieA_content_header_struct_uses', 'tieA_codec_calls'],
                 lanes=['dec_prim', 'dec_value:wellformed', 'args/args.unmarshal', 'props/props.unmarshal,flags', 'frame/frame.unmarshal.M,frame.unmarshal.H', 'spec/spec.parse'], oracles=['c05']),
     'C06': dict(mods=['C06', 'C06Stream'], thms=['C06_stream_of_items', 'C06_prefix_determines', 'C06_envelope', 'C06_stream'],
